@@ -43,6 +43,32 @@ FIRST_MISSED = {  # caught only after the extension named here (recorded while t
  "C14-m6": "identity drawn from the whole name domain in the prelude of every scenario profile (was fixed to `Test User`); caught by C12 before",
  "C17-m6": "`.goitignore` written with CRLF line ends and without a final newline",
  "C18-m6": "`head@{0}` / `Head@{1}` and blank-padded positions in the reset arguments of the C18 grammar",
+ # round 4 (m7/m8)
+ "C01-m7": "the C01 CLI commit takes a drawn message (CR / CRLF line ends among them) and the stored commit object must decode to it; kept against the tree it was written for (54b0103), the later rewrite of the commit reader (94d2f19) replaced the lines it changes",
+ "C01-m8": "one `hash-object` call over several files (reverse order, one file twice) in the C01 CLI layer",
+ "C03-m7": "hostile branch names built as `../`^k + a real file of the repository (HEAD, index, an object file by symbolic id, a branch, a log); was caught by C10 before",
+ "C03-m8": "`FreeBranch` prefers names related to existing ones (blank at the end, other case, prefixes); was caught by C10 before",
+ "C04-m8": "path components that START with the byte 0xFF (`\\xffz`, `\\xff.go`)",
+ "C05-m7": "message lines that look like commit header fields and quote ids of existing trees / commits (`tree {{tree#n}}`), drawn for a fifth of the commits of EVERY profile; patch carried over to the rewritten commit reader (patch.ported.diff)",
+ "C06-m7": "more reset / commit steps in the index profile (the `%` directory names were there already; detection was a matter of chance)",
+ "C07-m7": "same extension as C05-m7 (header-like message lines); patch carried over (patch.ported.diff)",
+ "C08-m7": "untracked temp-like siblings of tracked files (`P.tmp`, `P~`, `P.lock`, `.P.tmp`) written by a new step in the stage / reset / restore profiles",
+ "C08-m8": "reset oracle: after --mixed / --hard `status` must list nothing staged (entries that are present but cannot be looked up show there)",
+ "C09-m7": "the violation was found but did not reproduce through the replay path (absolute spellings carried the sandbox directory of the generating run): such arguments are now stored as `{{work}}/p`",
+ "C11-m8": "journal profile configures identities with an inner tab (and other separators of the journal line)",
+ "C13-m7": "NOT caught: needs the ignore entry `.*` (or `.`, `*.`, `*.*`), a form whose meaning the properties do not state; the unchanged tree already treats `add .` as ignored under that entry (Appendix B, 18)",
+ "C14-m7": "branch names with a line break, in the log profile only (Appendix B, 16)",
+ "C14-m8": "not caught by C14 within the quick budget (needs HEAD on `X.tmp`, then the branch file of `X` written); the same one-line change is C02-m8 and is caught by C02 and C10",
+ "C16-m7": "commands that are refused fault-free (update-ref to a blob / tree id, duplicate names, unknown paths) enumerated under single faults",
+ "C16-m8": "fault corpus states with a `.goitignore` and ignored files",
+ "C17-m7": "`.goitignore` files of 400 … 800 entries (more than 4 KiB / 8 KiB); patch carried over after the ignore fixes (patch.ported.diff)",
+ "C17-m8": "arguments of one `add` call that are string prefixes of each other without lying beneath each other (`lib`, `lib2/b.c`); patch carried over (its import was removed by 54b0103)",
+ "C18-m7": "caught after the general extensions of this round (deeper directory arguments for restore --staged); also caught by C09 and C06",
+ "C19-m7": "`reflog-tail` loader: arbitrary lines (one up to 3 MiB) followed by genuine records whose positions must not move; patch carried over to the repaired reader (patch.ported.diff)",
+ "C19-m8": "crafted staging areas with one path beneath 200 … 1500 directories (C05), since the byte-level decoders cannot reach a depth limit",
+ "C20-m7": "config keys and sections with brackets, `#`, `;`",
+ "C20-m8": "awkward identities (`dev -> ops`, `a > b`, `Ada Tester #2`, …) and the C20 oracle demands that commit succeeds with a usable identity",
+ "C02-m7": "identities that contain ` #` / ` ;` or start with them",
  "C10-m6": "the violation was found but could not be replayed (the step carried a commit id of the generating run): steps now name commits symbolically (`@commit#n`)",
 }
 print("### D.1 Changes written by independent sub-agents (`seeded/<ID>-mN/`)\n")
